@@ -437,18 +437,39 @@ def gram4_valid(block, seq):
     return len(seq) <= 1
 
 
-def gram4_source(block, seq, syntax):
+GRAM4_BODIES = ('digits', 'empty', 'newline')
+
+
+def gram4_source(block, seq, syntax, body='digits'):
+    """body: what stands between the tags -- a digit, nothing at all, or a
+    line end only (which the parser drops after a block tag)"""
     name = block.split()[0]
+
+    def b(i):
+        return {'digits': str(i), 'empty': '', 'newline': ' \n'}[body]
+    first = 'a' if body == 'digits' else b(0)
     if syntax == 'dtml':
-        return 'HTML', 'p\n\n<dtml-%s>a' % block + ''.join(
-            '<dtml-%s>%d' % (t, i) for i, t in enumerate(seq)) + \
+        return 'HTML', 'p\n\n<dtml-%s>%s' % (block, first) + ''.join(
+            '<dtml-%s>%s' % (t, b(i)) for i, t in enumerate(seq)) + \
             '</dtml-%s>q' % name
     if syntax == 'ssi':
-        return 'HTML', 'p\n\n<!--#%s-->a' % block + ''.join(
-            '<!--#%s-->%d' % (t, i) for i, t in enumerate(seq)) + \
+        return 'HTML', 'p\n\n<!--#%s-->%s' % (block, first) + ''.join(
+            '<!--#%s-->%s' % (t, b(i)) for i, t in enumerate(seq)) + \
             '<!--#/%s-->q' % name
-    return 'String', 'p\n\n%%(%s)[a' % block + ''.join(
-        '%%(%s)[%d' % (t, i) for i, t in enumerate(seq)) + '%%(%s)]q' % name
+    return 'String', 'p\n\n%%(%s)[%s' % (block, first) + ''.join(
+        '%%(%s)[%s' % (t, b(i)) for i, t in enumerate(seq)) + \
+        '%%(%s)]q' % name
+
+
+# literal text that looks like the beginning of a tag or entity but is text
+# under every reading (no terminator follows): put in front of / behind a
+# source it must not change whether the source is accepted
+TEXT_CONTEXTS = {
+    'HTML': [('&dtml-x ', ''), ('&dtml.a ', ''), ('&dtml-', ''),
+             ('<dtml ', ''), ('<!-- ', ''), ('&dtml-\n', ''),
+             ('', ' &dtml-x'), ('', '<dtml-'), ('', '<!--#'), ('', '&dtml.')],
+    'String': [('% ', ''), ('%%', ''), ('%\n', ''), ('', '%('), ('', '%')],
+}
 
 
 # expression texts (no double quote inside): parser-level errors, errors that
@@ -697,6 +718,17 @@ def run(case):
             res.violate('accept-valid', 'corpus-rejected:%s' % name,
                         {'source': src}, {'fam': 'one', 'cls': cls,
                                           'src': src})
+        if ';' not in src:
+            for pre, post in TEXT_CONTEXTS[cls]:
+                o2 = judge(res, cls, pre + src + post, 'corpus')
+                note(o2, src)
+                if o2 != o:
+                    res.violate('accept-valid',
+                                'corpus-in-text-context:%s' % o2,
+                                {'source': pre + src + post, 'alone': o,
+                                 'in-context': o2},
+                                {'fam': 'one', 'cls': cls,
+                                 'src': pre + src + post})
         if fam == 'mut':
             for how, m in mutations(src, tagre):
                 note(judge(res, cls, m, 'mut:' + how), m)
@@ -731,8 +763,9 @@ def run(case):
         for k in range(0, 4):
             for seq in itertools.product(tags, repeat=k):
                 valid = gram4_valid(block, seq)
-                for syntax in ('dtml', 'ssi', 'epfs'):
-                    cls, src = gram4_source(block, seq, syntax)
+                for syntax, body in itertools.product(
+                        ('dtml', 'ssi', 'epfs'), GRAM4_BODIES):
+                    cls, src = gram4_source(block, seq, syntax, body)
                     o = judge(res, cls, src, 'gram4')
                     note(o, src)
                     if valid is None or valid == (o == 'accepted'):
@@ -810,14 +843,22 @@ def run(case):
                                 {'fam': 'one', 'cls': cls, 'src': src})
     else:
         import TreeDisplay  # noqa: F401  registers the tree tag
-        for what, cls, src in BAD:
-            o = judge(res, cls, src, 'gram')
-            note(o, src)
-            if o not in ('rejected', 'syntaxerror'):
-                res.violate('reject-invalid',
-                            'accepted-invalid:%s' % what.replace(' ', '-'),
-                            {'source': src, 'violates': what, 'outcome': o},
-                            {'fam': 'one', 'cls': cls, 'src': src})
+        for what, cls, src0 in BAD:
+            for pre, post in [('', '')] + TEXT_CONTEXTS[cls]:
+                if (pre or post) and ';' in src0:
+                    continue
+                src = pre + src0 + post
+                o = judge(res, cls, src, 'gram')
+                note(o, src)
+                if o not in ('rejected', 'syntaxerror'):
+                    res.violate('reject-invalid',
+                                'accepted-invalid:%s%s' % (
+                                    what.replace(' ', '-'),
+                                    ':in-text-context' if pre or post
+                                    else ''),
+                                {'source': src, 'violates': what,
+                                 'outcome': o},
+                                {'fam': 'one', 'cls': cls, 'src': src})
     res.evals = n
     res.nt_count = n - outcomes.get('accepted-plain', 0)
     for k, v in outcomes.items():
